@@ -2,6 +2,7 @@ package main
 
 import (
 	"fmt"
+	"os"
 	"go/token"
 	"go/types"
 	"strings"
@@ -91,6 +92,9 @@ func (p *prover) paramFacts() {
 		return // methods with exported names can be called through interfaces / from outside
 	}
 	sites, escapes := p.c.callSitesOf(fn)
+	if os.Getenv("L4DEBUG") != "" && strings.Contains(fname(fn), os.Getenv("L4DEBUG")) {
+		fmt.Println("DBG paramFacts", fname(fn), "sites", len(sites), "escapes", escapes, "depth", p.c.ipDepth)
+	}
 	if escapes || len(sites) == 0 || p.c.ipDepth > 2 {
 		return
 	}
@@ -143,6 +147,12 @@ func (p *prover) paramFacts() {
 				if k, ok := pc.boundAt(cs.Block(), d); ok {
 					cur[pair{i, j}] = k
 				}
+			}
+		}
+		if os.Getenv("L4DEBUG") != "" && strings.Contains(fname(fn), os.Getenv("L4DEBUG")) {
+			fmt.Println("DBG site", p.c.ipos(cs), "in", fname(cs.Parent()), "facts", cur)
+			for _, qa := range qs {
+				fmt.Println("    ", qa.name, "=", pc.qlin(qa, args))
 			}
 		}
 		if first {
